@@ -307,4 +307,52 @@ theorem parse_dtargets_eq (t : Tree) (m : Nat) (eps : Rat) (r : Rules) (hn : 0 <
         simp only [nodes1, hv, hn', List.range_succ_eq_map, List.drop_succ_cons, List.drop_zero,
           List.map_cons, List.singleton_append]
 
+/-- one tracing step at an internal node: the extension of a child's generator inside any base set is the
+    rows of the base whose descent step goes to that child -/
+theorem trace_step (t : Tree) (X : Rows) (m : Nat) (eps : Rat) (hwf : wellFormed t X m eps = true)
+    (i : Nat) (l r f : Int) (thr : Rat)
+    (h1 : t.left[i]? = some l) (h2 : t.right[i]? = some r) (h3 : t.feature[i]? = some f)
+    (h4 : t.threshold[i]? = some thr) (hl : ¬ l = -1)
+    (base : List Nat) (hbase : ∀ g ∈ base, g < nObjects X) :
+    extensionI X m [(f, directDescr t eps l.toNat thr)] (some base)
+        = .ok (base.filter fun g => descend t (X.getD g []) 1 i == l.toNat) ∧
+    extensionI X m [(f, directDescr t eps r.toNat thr)] (some base)
+        = .ok (base.filter fun g => descend t (X.getD g []) 1 i == r.toNat) := by
+  obtain ⟨hlen, heps, hnode⟩ := wf_parts hwf
+  have hi : i < t.n := by rw [← hlen]; exact (List.getElem?_eq_some_iff.mp h1).1
+  obtain ⟨a1, a3, a6, a7, a8, _, a10, _, a12⟩ := wfNode_internal (hnode i hi) h1 h2 h3 h4 hl
+  have hne : l.toNat ≠ r.toNat := by
+    have := hnode i hi
+    simp only [wfNode, h1, h2, h3, h4] at this
+    simp only [Bool.or_eq_true, Bool.and_eq_true, beq_iff_eq, decide_eq_true_eq, bne_iff_ne, ne_eq] at this
+    rcases this with hh | hh
+    · exact absurd hh.1 hl
+    · have hlr : l ≠ r := hh.1.1.1.1.1.1.1.2
+      omega
+  have hstep : ∀ g, descend t (X.getD g []) 1 i
+      = if (X.getD g []).getD f.toNat 0 ≤ thr then l.toNat else r.toNat := by
+    intro g
+    simp only [descend, h1, h2, h3, h4, if_neg hl]
+  constructor
+  · rw [extensionI_single X m f _ base a6 a7]
+    congr 1
+    apply List.filter_congr
+    intro g _
+    simp only [directDescr, a10, if_true, sat_left, hstep, cell]
+    by_cases hx : (X.getD g []).getD f.toNat 0 ≤ thr
+    · rw [if_pos hx, decide_eq_true hx]; simp
+    · rw [if_neg hx, decide_eq_false hx]; simp [Ne.symm hne]
+  · rw [extensionI_single X m f _ base a6 a7]
+    congr 1
+    apply List.filter_congr
+    intro g hg
+    have hrow : X.getD g [] ∈ X := by
+      have hlt : g < X.length := hbase g hg
+      simp [List.getD_eq_getElem?_getD, List.getElem?_eq_getElem hlt]
+    simp only [directDescr, a12, Bool.false_eq_true, if_false, hstep, cell]
+    rw [sat_right thr eps _ heps (a8 _ hrow)]
+    by_cases hx : (X.getD g []).getD f.toNat 0 ≤ thr
+    · rw [if_pos hx, decide_eq_true hx]; simp [hne]
+    · rw [if_neg hx, decide_eq_false hx]; simp
+
 end Fca.DL
